@@ -13,6 +13,7 @@ package mach
 import (
 	"bytes"
 	"crypto/sha256"
+	"errors"
 	"fmt"
 	"math/big"
 	"sync"
@@ -26,11 +27,15 @@ import (
 
 // Operation kinds.
 const (
-	Init           = "init"
-	Update         = "update"
-	ForceUpdate    = "force-update"
-	CheckUpdate    = "check-update"
-	Sig            = "sig"
+	Init        = "init"
+	Update      = "update"
+	ForceUpdate = "force-update"
+	CheckUpdate = "check-update"
+	Sig         = "sig"
+	// SigFault is Sig() while the own account's signer is broken: SignData hands
+	// back a cut-off answer together with an error.  Only the random generator
+	// offers it; it is not part of the enumerated alphabet.
+	SigFault       = "sig-fault"
 	AddSig         = "add-sig"
 	Discard        = "discard"
 	EnableInit     = "enable-init"
@@ -53,6 +58,10 @@ const (
 	SigRandom   = "random"   // 64 fixed pseudo-random bytes
 	SigWrongLen = "wronglen" // a valid signature cut to 63 bytes
 	SigNil      = "nil"      // nil
+	// SigTooLong is a valid signature followed by one more byte (a 65 byte
+	// r||s||v blob); only the random generator offers it, it is not part of the
+	// enumerated alphabet
+	SigTooLong = "toolong"
 )
 
 // SigKinds lists all signature kinds.
@@ -149,6 +158,7 @@ type Exec struct {
 	Params *channel.Params
 	Base   *channel.State // the state Init(valid) is documented to stage
 	Hist   []Seen         // states staged so far (successful staging calls), oldest first
+	acc    *faultyAccount
 }
 
 // Call is an Op resolved to concrete arguments, plus the facts about their
@@ -229,6 +239,24 @@ func (c Config) Valid() bool {
 	return c.N >= 2 && c.N <= 4 && c.Idx >= 0 && c.Idx < c.N && (c.App == "none" || c.App == "payment") && c.Assets >= 1 && c.Assets <= 2
 }
 
+// faultyAccount is the machine's own account; while broken, signing fails the
+// way a remote signer with a cut-off answer does: some bytes and an error.
+type faultyAccount struct {
+	wallet.Account
+	broken bool
+}
+
+func (a *faultyAccount) SignData(data []byte) ([]byte, error) {
+	if a.broken {
+		sig, _ := a.Account.SignData(data)
+		if len(sig) > 7 {
+			sig = sig[:7]
+		}
+		return sig, errors.New("mach: signer answer cut off")
+	}
+	return a.Account.SignData(data)
+}
+
 // Addr returns the address of participant i.
 func Addr(i int) wallet.Address { return gen.Acc(i).Address() }
 
@@ -243,11 +271,12 @@ func New(cfg Config) (*Exec, error) {
 	}
 	nonce := big.NewInt(int64(1000 + cfg.N*10 + cfg.Assets))
 	params := channel.NewParamsUnsafe(60, parts, cfg.AppValue(), nonce, true, false, channel.Aux{})
-	m, err := channel.NewStateMachine(map[wallet.BackendID]wallet.Account{0: gen.Acc(cfg.Idx)}, *params)
+	acc := &faultyAccount{Account: gen.Acc(cfg.Idx)}
+	m, err := channel.NewStateMachine(map[wallet.BackendID]wallet.Account{0: acc}, *params)
 	if err != nil {
 		return nil, err
 	}
-	e := &Exec{Cfg: cfg, M: m, Params: params}
+	e := &Exec{Cfg: cfg, M: m, Params: params, acc: acc}
 	e.Base = e.initState(e.initAlloc(cfg.N), channel.NoData())
 	return e, nil
 }
@@ -422,6 +451,9 @@ func (e *Exec) makeSig(c *Call, kind string, idx int, target *channel.State, tar
 		c.Sig = append(wallet.Sig(nil), v[:len(v)-1]...)
 	case SigNil:
 		c.Sig = nil
+	case SigTooLong:
+		v := SignCached(idx, target, targetEnc)
+		c.Sig = append(append(wallet.Sig(nil), v...), 0x1b)
 	default:
 		panic("mach: unknown signature kind " + kind)
 	}
@@ -488,7 +520,7 @@ func (e *Exec) Resolve(op Op) Call {
 			target = e.Base
 		}
 		e.makeSig(&c, op.S, op.I, target, Enc(target))
-	case Sig, Discard, EnableInit, EnableUpdate, EnableFinal, SetFunded, SetRegistering, SetRegistered, SetWithdrawing, SetWithdrawn:
+	case Sig, SigFault, Discard, EnableInit, EnableUpdate, EnableFinal, SetFunded, SetRegistering, SetRegistered, SetWithdrawing, SetWithdrawn:
 	default:
 		panic("mach: unknown op kind " + op.K)
 	}
@@ -514,6 +546,10 @@ func (e *Exec) Apply(c Call) (r Result) {
 			r.Err = m.CheckUpdate(c.State, c.Actor, c.Sig, c.SigIdx)
 		case Sig:
 			r.Sig, r.Err = m.Sig()
+		case SigFault:
+			e.acc.broken = true
+			r.Sig, r.Err = m.Sig()
+			e.acc.broken = false
 		case AddSig:
 			r.Err = m.AddSig(c.SigIdx, c.Sig)
 		case Discard:
